@@ -108,25 +108,104 @@ func runC12(args []string) error {
 			return write(fmt.Sprintf("cases_mini_%d.v", k), body)
 		}
 		wits := c12Witnesses()
+		type mres struct {
+			src   string
+			refOK bool
+			ref   string
+			impl  c12Obs
+		}
+		type munit struct {
+			pi    int
+			p     *mprog
+			src   string
+			refOK bool
+			orig  c12Obs
+			note  string
+			muts  []mmutant
+			rs    []mres
+		}
+		// pass 1: programs and their mutants
+		var units []*munit
 		for pi := -len(wits); pi < nMini; pi++ {
-			var p *mprog
+			u := &munit{pi: pi}
 			if pi < 0 {
-				p = wits[pi+len(wits)].Orig
+				u.p = wits[pi+len(wits)].Orig
+				// the witnesses of the _refuted theorems of Props/C12.v, replayed on the implementation
+				u.muts = []mmutant{wits[pi+len(wits)].Mut}
 			} else {
-				p = c12MiniProgram(rm.fork())
+				u.p = c12MiniProgram(rm.fork())
+				for _, m := range c12MiniMutants(u.p) {
+					if m.Fam != "" {
+						u.muts = append(u.muts, m)
+					}
+				}
 			}
-			src := p.Go()
-			ck, err := c12TypeCheck(src, false)
-			refOK := err == nil && len(ck.Errs) == 0
+			u.src = u.p.Go()
+			u.rs = make([]mres, len(u.muts))
+			units = append(units, u)
+		}
+		// pass 2: go/types and the static passes of yaegi on everything, in parallel; the mutants that
+		// pass the static checks are evaluated in child processes (an accepted ill-typed program can take
+		// the host down: stack overflow, fatal errors)
+		type ref struct{ u, i int }
+		var work []ref
+		for ui, u := range units {
+			work = append(work, ref{ui, -1})
+			for i := range u.muts {
+				work = append(work, ref{ui, i})
+			}
+		}
+		parallelMap(len(work), 0, func(k int) {
+			u := units[work[k].u]
+			if i := work[k].i; i >= 0 {
+				ms := u.muts[i].Prog.Go()
+				u.rs[i].src = ms
+				mk, err := c12TypeCheck(ms, false)
+				if err != nil {
+					u.rs[i].ref = "parse error: " + err.Error()
+					return
+				}
+				u.rs[i].refOK = len(mk.Errs) == 0
+				if !u.rs[i].refOK {
+					u.rs[i].ref = mk.Errs[0]
+				}
+				u.rs[i].impl = c12Compile(ms, false, nil)
+				return
+			}
+			ck, err := c12TypeCheck(u.src, false)
+			u.refOK = err == nil && len(ck.Errs) == 0
 			// the property asks that the well-typed program is not rejected: the static passes succeed.
 			// Whether it then runs to completion is another property's business (counted, not judged).
-			o := c12Compile(src, false, nil)
-			if o.Class == "compiled" {
-				o.Class = "accepted"
-				if ro := c12EvalInProcess(src, false, nil, 90*time.Second); ro.Class != "accepted" {
-					sm.count("mini:original-fails-at-run-time(" + ro.Class + ")")
-					sm.Notes = append(sm.Notes, "a well-typed MiniGo program passes the static checks but fails at run time (not a C12 matter): "+ro.Err)
+			u.orig = c12Compile(u.src, false, nil)
+			if u.orig.Class == "compiled" {
+				u.orig.Class = "accepted"
+				if ro := c12EvalInProcess(u.src, false, nil, 90*time.Second); ro.Class != "accepted" {
+					u.note = ro.Class + " " + ro.Err
 				}
+			}
+		})
+		{
+			var esc []*c12richMutant
+			var where []ref
+			for ui, u := range units {
+				for i := range u.muts {
+					if u.rs[i].impl.Class == "compiled" {
+						esc = append(esc, &c12richMutant{Src: u.rs[i].src})
+						where = append(where, ref{ui, i})
+					}
+				}
+			}
+			c12BatchEval(esc)
+			for k, w := range where {
+				units[w.u].rs[w.i].impl = esc[k].Obs
+			}
+		}
+		// pass 3: cases
+		for _, u := range units {
+			pi, p, src, refOK, o, muts, rs := u.pi, u.p, u.src, u.refOK, u.orig, u.muts, u.rs
+			if u.note != "" {
+				sm.count("mini:original-fails-at-run-time")
+				sm.Notes = append(sm.Notes, "a well-typed MiniGo program passes the static checks but fails at run time (not a C12 matter): "+u.note)
 			}
 			sm.Evaluations++
 			sm.RefComparisons++
@@ -149,54 +228,6 @@ func runC12(args []string) error {
 			cases = append(cases, fmt.Sprintf("(%d%%N, %s, None, %d%%N, %d%%N, %s)", cid, pname, p.hash(), oc, coqBool(refOK)))
 			if len(sm.Samples) < 1 {
 				sm.Samples = append(sm.Samples, map[string]any{"stream": "mini", "source": src})
-			}
-			var muts []mmutant
-			if pi < 0 {
-				// the witnesses of the _refuted theorems of Props/C12.v, replayed on the implementation
-				muts = []mmutant{wits[pi+len(wits)].Mut}
-			} else {
-				for _, m := range c12MiniMutants(p) {
-					if m.Fam != "" {
-						muts = append(muts, m)
-					}
-				}
-			}
-			type mres struct {
-				src   string
-				refOK bool
-				ref   string
-				impl  c12Obs
-			}
-			rs := make([]mres, len(muts))
-			parallelMap(len(muts), 0, func(i int) {
-				ms := muts[i].Prog.Go()
-				rs[i].src = ms
-				mk, err := c12TypeCheck(ms, false)
-				if err != nil {
-					rs[i].ref = "parse error: " + err.Error()
-					return
-				}
-				rs[i].refOK = len(mk.Errs) == 0
-				if !rs[i].refOK {
-					rs[i].ref = mk.Errs[0]
-				}
-				rs[i].impl = c12Compile(ms, false, nil)
-			})
-			{
-				// the mutants that passed the static checks are evaluated in child processes (an accepted
-				// ill-typed program can take the host down: stack overflow, fatal errors)
-				var esc []*c12richMutant
-				var idx []int
-				for i := range muts {
-					if rs[i].impl.Class == "compiled" {
-						esc = append(esc, &c12richMutant{Src: rs[i].src})
-						idx = append(idx, i)
-					}
-				}
-				c12BatchEval(esc)
-				for k, i := range idx {
-					rs[i].impl = esc[k].Obs
-				}
 			}
 			for i, m := range muts {
 				line := c12DiffLine(src, rs[i].src)
@@ -222,8 +253,8 @@ func runC12(args []string) error {
 				}
 				cases = append(cases, fmt.Sprintf("(%d%%N, %s, Some (%s, %s), %d%%N, %d%%N, %s)", cid, pname, m.Mut, m.Site.Coq(), m.Prog.hash(), c12ClassCode(rs[i].impl.Class), coqBool(rs[i].refOK)))
 			}
-			if pi >= 0 && (pi%2 == 1 || pi == nMini-1) {
-				if err := flush(pi / 2); err != nil {
+			if pi >= 0 {
+				if err := flush(pi); err != nil {
 					return err
 				}
 			}
